@@ -15,7 +15,7 @@ CHECKS = {
             "Theorem C01.roundtrip holds for every reachable state of every region with a LawfulRegion instance; one inferInstance "
             "obligation per catalogued composition (regenerated from catalogue.txt on every run) shows the catalogue is covered. "
             "The correspondence drives the real crate and the compiled model with the same scripts in both overflow profiles and "
-            "compares reads, refusals and item accessors; a direct oracle (shadow list of pushed values) supplies replays.", "§6 C01"),
+            "compares reads, refusals and item accessors; a direct oracle (shadow list of pushed values) supplies replays. Props/Universe.lean: the same theorem quantified over a closed universe of region descriptions (every finite nesting of the crate's region constructors, interpreted by structural recursion; the catalogue is in its image by rfl).", "§6 C01"),
     "C05": ("Lean proof (LawfulIdxCont for Vec/IndexList/IndexOptimized, Stride acceptance iff documented pattern) + exhaustive "
             "short-sequence correspondence",
             "C05.faithful: for every list of usize values every container's iter/index/len/is_empty equal the list; "
@@ -29,22 +29,22 @@ CHECKS = {
     "C02": ("Lean proof (frame law by induction over histories, every composition) + differential correspondence",
             "C02.frame_history: any valid index reads the same after any history of pushes on any lawful region; C02.frame_reserve "
             "extends it to the reservation calls. Scripts re-read all issued ordinals after every step of histories mixing push, "
-            "reserve_items, reserve_regions and FlatStack::reserve.", "§6 C02"),
+            "reserve_items, reserve_regions and FlatStack::reserve. Universe.C02_every_composition / C02_reserve_every_composition quantify the frame law over every description of the closed universe.", "§6 C02"),
     "C03": ("Lean proof (FlatStack refines a list; FlatStack is itself a LawfulRegion) + differential correspondence",
             "C03.rep_copy/rep_extend/rep_fromIter/rep_clear/observers: a stack represents the list of copied values for every lawful "
             "region and every lawful index container; get(k) is none (a panic) exactly for k >= len. Scripts compare len, is_empty, "
             "get incl. out-of-range, iteration, size hints and cloned iterators with a Vec shadow.", "§6 C03"),
     "C08": ("Lean proof (clear yields a state bisimilar to default; bisimulation lifted over push sequences) + twin-run correspondence",
             "C08.after_clear: for every lawful region (and FlatStack) and every history, after clear any push sequence returns the "
-            "same indices and reads as on Default::default(). Scripts run the continuation on the cleared region and a fresh twin.", "§6 C08"),
+            "same indices and reads as on Default::default(). Scripts run the continuation on the cleared region and a fresh twin. Universe.C08_every_composition: for every description of the closed universe.", "§6 C08"),
     "C09": ("Lean proof (clone/clone_from laws per instance, observational equality via the bisimulation) + differential correspondence",
             "C09.clone_observe / cloneFrom_observe: the copy is observationally the source (equal reads now, equal answers to every "
             "further push sequence), for clone_from with an arbitrary destination; one inferInstance obligation per composition. "
-            "Independence is exercised by the scripts (mutate one, re-read the other).", "§6 C09"),
+            "Independence is exercised by the scripts (mutate one, re-read the other). UniverseOps.C09_every_composition: for every description of the closed universe, coded regions included.", "§6 C09"),
     "C10": ("Lean proof (reserve_* and merge_regions laws per instance) + twin-run correspondence",
             "C10.reserveItems_invisible / reserveRegions_invisible / merge_fresh / stack_*: reservations with arbitrary announcements "
             "and merging from arbitrary sources are invisible up to the bisimulation, for every uncoded composition (inferInstance "
-            "per entry); coded regions are covered by C06/C07.", "§6 C10"),
+            "per entry); coded regions are covered by C06/C07. UniverseOps.C10_every_composition / C10_merge_every_composition: for every description of the closed universe (merge: uncoded ones; huffman_not_lawfulMerge shows why); merged coded regions are exercised with their sources' values over two generations.", "§6 C10"),
     "C11": ("Lean proof (hit-or-miss characterisation of CollapseSequence::push) + exhaustive short-sequence correspondence",
             "C11.hit_or_miss: a push either returns the remembered index with the state literally unchanged (iff == to the remembered "
             "item) or stores through the inner region; forgets_on_reset covers default/clear, merge by C10. Scripts enumerate all "
@@ -70,21 +70,21 @@ CHECKS = {
             "refused exactly when the literal is ambiguous (refuses_ambiguous) or reads back exactly (roundtrip) and leaves earlier "
             "indices unchanged (frame); accepts_empty; heavy_hitters_one_byte_partial / all_pushed_tagged: dictionary hits cost one "
             "byte and, below the compaction threshold with enough free tags, every source string is a hit. The Misra-Gries "
-            "compaction bound itself is not proved (stated in DESIGN.md).", "§6 C07"),
+            "compaction bound itself is not proved (stated in DESIGN.md). Props/C07MG.lean: the invariant the crate's Misra-Gries compaction actually maintains (the classical total/(k+1) bound is refuted by a kernel-checked counterexample), its composition through new_from, and dominant_strings_tagged: a string with C of N non-empty pushes gets a one-byte code whenever 513*N < (F+1)*(513*C-2*N); the crowded regime of the generator is derived from it.", "§6 C07"),
     "C13": ("Lean proof (get agrees with into_owned[k]? for both representations, none beyond len) + exhaustive-position correspondence",
             "C13.readSlice_get / readColumns_get / stack_get: for well-formed items get k = owned[k]?, in particular a panic for every "
             "k >= len; len/is_empty/iter agree. Scripts probe every item of regions with adjacent items at every position 0..len+2 "
-            "and huge positions in both representations.", "§6 C13"),
+            "and huge positions in both representations. The harness also audits nth/skip/count/last/size_hint of every read-item iterator against stepping it.", "§6 C13"),
     "C14": ("Lean proof (IntoOwned laws of the modelled read items) + differential correspondence",
             "C14.cloneOnto_eq (zip/extend/truncate for any prior target), borrowAs_roundtrip, intoOwned_eq_index, reborrow_id, "
             "copy_between_regions for both representations, for slices and rows. Element-level into_owned is identified with the "
             "owned value in the model (laws compose structurally); scripts check every catalogue entry incl. option/result/tuple "
-            "variants against prior targets.", "§6 C14"),
+            "variants against prior targets. Props/C14b.lean: clone_onto / into_owned / borrow_as of Option, Result, tuple and slice items arm by arm (ItemLaws, cloneOnto_nested for every nesting) and of Huffman Wrapped items.", "§6 C14"),
     "C15": ("Lean proof (iterator comparison of any two representations equals lexicographic comparison of owned values; order laws) "
             "+ all-pairs correspondence",
             "C15.readSlice_eq / readSlice_cmp: the lazy Iterator::eq/cmp over any two representations equals listEq/lexCmp of the owned "
             "lists; lexCmp_lawful: reflexive, antisymmetric, transitive, eq iff cmp = Equal, closed under nesting. Huffman raw vs "
-            "encoded items are covered by the correspondence (all pairs across a raw and an encoded container).", "§6 C15"),
+            "encoded items are covered by the correspondence (all pairs across a raw and an encoded container). Props/C15b.lean: Wrapped eq/cmp in all four representation arms equal the owned lists' ==/lexicographic order, across containers with different codes.", "§6 C15"),
     "C04": ("Lean proof (history theorem issued_reads for every lawful region; decide over program-text facts regenerated from /repo/src) "
             "+ differential correspondence with byte-wise UTF-8 re-validation",
             "C04.string_reads_pushed: after any push/clear history every issued index of a string region reads exactly the pushed "
@@ -104,7 +104,7 @@ CHECKS = {
             "model (all bookkeeping fields identical: last_index, stride state, spill lists, offsets), C16.continuation: which answers "
             "every further push sequence like the original; one inferInstance obligation per serde-enabled composition. Scripts "
             "serialise the real value with serde_json, compare its tree with the model's (struct nodes as multisets of field "
-            "values) and drive both copies through the same continuation comparing indices, reads and used bytes.", "§6 C16"),
+            "values) and drive both copies through the same continuation comparing indices, reads and used bytes. UniverseSer.C16_every_composition: for every serde-enabled description of the closed universe.", "§6 C16"),
     "C17": ("Lean proof (growth-vector model of every structural region: reserve/merge leave exactly the room the pushes consume; "
             "doubling bound) + capacity/allocator correspondence",
             "C17.no_growth_after_reserve_items / _regions / _merge / _merge_capacity: for every vector-backed structural composition "
@@ -112,14 +112,14 @@ CHECKS = {
             "or populated regions; C17.log_growth: each capacity changes at most log2(final)+1 times under any doubling policy; the "
             "unrepaired SliceRegion::merge_regions is shown (by evaluation) to violate the law the repaired one satisfies. PARTIAL by "
             "nature: the allocator, RawVec's policy and the optimiser are runtime facts; the harness's counting allocator and the "
-            "capacities reported by the real crate cover them by sampling.", "§6 C17"),
+            "capacities reported by the real crate cover them by sampling. UniverseHeap.C17_*_every_composition: for every vector-backed description of the closed universe.", "§6 C17"),
     "C18": ("Lean proof (capacity invariant over the whole API; used-bytes monotonicity; structural accounting lemmas) + differential "
             "correspondence with shadow lower bound",
             "C18.used_le_cap, push_monotone, clear_caps, clear_used(_default), every_child_*, lower_bound: for every region reachable "
             "through push/clear/reserve/merge/clone the reported pairs have used <= capacity, used bytes never decrease on push, clear "
             "keeps capacities and forgets payload, composites report the concatenation of their children, and a content-defined "
             "`stored` lower bound holds (exact for owned/string/slice storages). Scripts check the real crate's pairs against a "
-            "lower bound computed from the shadow and against the model's used bytes.", "§6 C18"),
+            "lower bound computed from the shadow and against the model's used bytes. UniverseHeap.C18_every_composition: for every description of the closed universe.", "§6 C18"),
 }
 
 
